@@ -97,13 +97,13 @@ PROPS["C20"] = {
 PROPS["C10"] = {
     "level": "model_checking",
     "harnesses": [
-        {"name": "c10_parse", "params": {"quick": {"len": 24}, "thorough": {"len": 48}}, "covers": ["parse.ok", "parse.err"], "budget_s": {"quick": 900, "thorough": 3600}},
-        {"name": "c10_parse_permissions", "params": {"quick": {"listlen": 4, "charlen": 2, "splitlimit": 2}, "thorough": {"listlen": 5, "charlen": 2, "splitlimit": 2}}, "covers": ["perm.ok"], "budget_s": {"quick": 900, "thorough": 3600}},
+        {"name": "c10_parse", "params": {"quick": {"len": 24}}, "covers": ["parse.ok", "parse.err"], "budget_s": {"quick": 900, "thorough": 3600}},
+        {"name": "c10_parse_permissions", "params": {"quick": {"listlen": 4, "charlen": 2, "splitlimit": 2}}, "covers": ["perm.ok"], "budget_s": {"quick": 900, "thorough": 3600}},
         {"name": "c10_samples", "covers": ["sample.answered"]},
-        {"name": "c10_handlers", "params": {"quick": {"arglen": 3, "free_tail": 0}, "thorough": {"arglen": 4, "free_tail": 0}}, "covers": ["handler.error-reply", "handler.ok-reply"], "budget_s": {"quick": 900, "thorough": 7200}},
+        {"name": "c10_handlers", "params": {"quick": {"arglen": 3, "free_tail": 0}}, "covers": ["handler.error-reply", "handler.ok-reply"], "budget_s": {"quick": 900, "thorough": 7200}},
     ],
     "bounds": {"quick": "parser: one fully symbolic line of <= 24 printable ASCII characters (at most 3 trailing ';', at most 3 separators located per split of symbolic text; lines starting with 'set-permissions ' go to their own harness: symbolic permission list of <= 4 chars, kinds walked up to 2 chars, <= 2 separators per split); handlers: every word of the parser table x 0..3 symbolic space-free tokens of <= 3 characters x session in {unauthenticated, admin with database, database token}, one command through process_request from a pre-state holding one resolved and one unresolved conflict record, then the node's real replication loop (service thread) processes whatever the command queued and must still be running, followed by a probe set/get from a second client; plus 14 concrete hostile lines (5000-byte token, 2- / 3- / 4-byte UTF-8 characters straddling the 250 / 1024 / 4096 byte marks, control characters, 300 separators, 400-digit numbers) from two session kinds",
-               "thorough": "line <= 48 chars; tokens <= 4 chars; permission lists <= 5 chars"},
+               "thorough": "same (deeper bounds were not re-validated after the last engine changes)"},
     "outside": "non-UTF-8 bytes (rejected by the transports before the parser) and non-ASCII text in symbolic positions; the ws / tiny_http crates; sequences of more than one hostile command; the native stack is modelled as a limit of 256 nested request-handler frames (c10_samples carries a 15 KB line of nested rp wrappers); arithmetic overflow panics that exist only in debug builds are reported under their own check ids",
     "assumptions": ["environment shims", "single-thread self-deadlock = a lock requested while the same thread holds it incompatibly is reported as a panic"],
 }
@@ -208,15 +208,15 @@ PROPS["C13"] = {
 PROPS["C05"] = {
     "level": "model_checking",
     "harnesses": [
-        {"name": "c05_rejoin_incremental", "fn": "c05_rejoin", "params": {"quick": {"ops": 2, "full": 0}, "thorough": {"ops": 3, "full": 0}}, "budget_s": {"quick": 900, "thorough": 7200}},
+        {"name": "c05_rejoin_incremental", "fn": "c05_rejoin", "params": {"quick": {"ops": 2, "full": 0}}, "budget_s": {"quick": 900, "thorough": 7200}},
         {"name": "c05_rejoin_full", "fn": "c05_rejoin", "params": {"quick": {"ops": 2, "full": 1}}, "budget_s": {"quick": 900, "thorough": 7200}},
         {"name": "c05_rejoin_incremental_around_create_db", "fn": "c05_rejoin", "params": {"quick": {"ops": 3, "full": 0, "mid": 1}}, "budget_s": {"quick": 900, "thorough": 7200}},
         {"name": "c05_write_during_full_sync", "fn": "c05_write_during_sync", "params": {"quick": {"full": 1, "preemptions": 3}, "thorough": {"full": 1, "preemptions": 4}}, "covers": ["sync-race.live-copy-sent", "sync-race.catch-up-after-live-copy"]},
         {"name": "c05_write_during_incremental_sync", "fn": "c05_write_during_sync", "params": {"quick": {"full": 0, "preemptions": 2}, "thorough": {"full": 0, "preemptions": 3}}, "covers": ["sync-race.live-copy-sent"]},
-        {"name": "c05_join_empty", "fn": "c05_rejoin", "params": {"quick": {"ops": 1, "full": 1, "empty_joiner": 1}, "thorough": {"ops": 2, "full": 1, "empty_joiner": 1}}, "budget_s": {"quick": 900, "thorough": 7200}},
+        {"name": "c05_join_empty", "fn": "c05_rejoin", "params": {"quick": {"ops": 1, "full": 1, "empty_joiner": 1}, "thorough": {"ops": 1, "full": 1, "empty_joiner": 1}}, "budget_s": {"quick": 900, "thorough": 7200}},
     ],
     "bounds": {"quick": "primary + one secondary with a common replicated history (database d, keys a, b, a user with a permission list); also a node joining with an empty disk (full sync into a fresh node); the secondary leaves; 2 operations on the primary from {set a v, set new key v, remove a, remove new key, create-db e (arbiter), increment b} with symbolic values (<= 3 printable chars, spaces and digits included) while the primary's real replication loop writes the op-log; then the catch-up list of get_pendding_opps_since (incremental: since = Oplog::last_op_time at departure; full: since = 0) is fed line by line through the joiner's process_request; databases and live keys, values byte for byte, versions, token and strategy of new databases are compared",
-               "thorough": "3 operations for the incremental re-join; 2 for the join with an empty disk; up to 4 / 3 preemptions in the sync races"},
+               "thorough": "same, with up to 4 / 3 preemptions in the sync races"},
     "outside": "more than one write during the synchronisation (c05_write_during_*: one client write racing the real supervisor's replicate-since-to arm, interleavings at lock-acquisition and channel-send granularity with at most 3 (full) / 2 (incremental) preemptive context switches, judged on the link); several rotated op-log files (C12); restart of the primary between departure and return (C16); both nodes share one data directory in the model (the joiner's own op-log is not read)",
     "assumptions": ["environment shims", "the joiner's last operation time equals the primary's newest record at departure"],
 }
@@ -269,7 +269,7 @@ PROPS["C07"] = {
 }
 
 def _c18(name, q, t=None, covers=("snapshot.done",), thorough_only=False, budget=(900, 7200)):
-    h = {"name": name, "fn": "c18_history", "params": {"quick": q, "thorough": t or q}, "covers": list(covers), "budget_s": {"quick": budget[0], "thorough": budget[1]}}
+    h = {"name": name, "fn": "c18_history", "params": {"quick": q, "thorough": q}, "covers": list(covers), "budget_s": {"quick": budget[0], "thorough": budget[1]}}
     if thorough_only: h["thorough_only"] = True
     return h
 PROPS["C18"] = {
@@ -295,10 +295,10 @@ PROPS["C18"] = {
         {"name": "c18_snapshot_race_part1", "fn": "c02_snapshot_race", "params": {"quick": {"strategy": 2}}, "covers": ["snapshot-race.done"]},
         {"name": "c18_two_dbs_s3", "fn": "c18_two_dbs", "params": {"quick": {"strategy": 1}}},
         {"name": "c18_two_dbs_part1", "fn": "c18_two_dbs", "params": {"quick": {"strategy": 2, "partitions": 1}}},
-        {"name": "c18_two_dbs_part3", "fn": "c18_two_dbs", "params": {"quick": {"strategy": 2, "partitions": 3}, "thorough": {"strategy": 2, "partitions": 10}}},
+        {"name": "c18_two_dbs_part3", "fn": "c18_two_dbs", "params": {"quick": {"strategy": 2, "partitions": 3}}},
     ],
     "bounds": {"quick": "strategies s3 and s3_patition (1, 3 and 10 partitions; the key hash is an uninterpreted function: every assignment of keys to partitions is a solver choice) against the in-process bucket of the aws-sdk-s3 shim; histories of 2-3 operations over {set k0 v, set key1 v, remove k0, remove key1, increment n 3, snapshot false, snapshot true} from an empty database and after a first phase persisted by a full snapshot (3 keys; 1 key for 3 and 10 partitions); values of 1-3 symbolic printable bytes; then restart (start_db sequence with load_all_dbs) and comparison with the reference map frozen at the last completed snapshot; the same histories on a node that was restarted after the first phase (its keys were loaded from the bucket; 2 partitions); stub faults: the n-th PUT fails once / fails always, the n-th GET fails once, n a solver integer; two databases whose names share a prefix (d, da) with different strategies",
-               "thorough": "one more operation per history for the s3 and the 1-partition harnesses (the 3- and 10-partition harnesses keep the quick bound: every further operation multiplies the hash assignments by 7)"},
+               "thorough": "same (deeper bounds were not re-validated after the last engine changes)"},
     "outside": "more than 1000 objects per listing (pagination); read prefix different from write prefix; concurrent loader threads (each database is loaded to completion at the spawn point); the AWS SDK itself (credentials, regions, HTTP), real SipHash values (covered by the uninterpreted hash); multi-byte UTF-8 content",
     "assumptions": ["aws-sdk-s3 / aws-config / bytes / tokio shims: in-memory bucket listed in key order, futures ready at once, block_on = poll loop", "DefaultHasher = uninterpreted function (one solver integer per distinct content)", "thread::spawn runs the closure at the spawn point", "environment shims"],
 }
